@@ -27,6 +27,7 @@ EXPLANATION = (
     "einsum atoms and must equal  total - sum_over_first_patch_axis - sum_over_second_patch_axis + diagonal,  with "
     "every term typed (patch, bin). R4: the covariance is numpy.cov(ddof=0) times (N-1) with N the number of "
     "samples. The leave-one-out identity itself and the index construction of the histogram resampling are NOT decided."
+    ' R4 further decides, on the symbolic return values: the kind dispatch (full / var / diag by an oracle on the kind parameter), the axis along which several sample sets are joined, NaN for a single sample, the raw-moment form of the covariance (reported as a cancellation hazard), and that the correlation matrix is of degree zero in the covariance (homogeneity typing).'
 )
 ASSUMPTIONS = [
     "einsum('bij->jb') sums over the first patch axis, 'bij->ib' over the second, 'bii->ib' extracts the diagonal, output typed (patch, bin)",
